@@ -23,8 +23,7 @@ class PDAObjectCreator:
         if isinstance(symbol, cfg.Epsilon):
             return pda.Epsilon()
         if self._inverse_symbol[symbol] is None:
-            value = str(symbol.value)
-            temp = pda.Symbol(value)
+            temp = pda.Symbol(symbol.value)
             self._inverse_symbol[symbol] = temp
             return temp
         return self._inverse_symbol[symbol]
